@@ -22,6 +22,226 @@ def mk(s):
                            pop_ids=s.get('pop_ids'), extrap_x=s.get('extrap_x'))
     return fs
 
+# ------------------------------------------------------------------------------------------------
+# spellings (stream 'layouts' of harness/props/c09_layouts.py): the SAME logical spectrum / operand / parameter handed
+# over in another memory layout, container or numeric type.  Every builder returns an object whose logical content
+# (C-order ravel of values and mask, flags, labels) is the one of mk(s); a spelling that does not apply to this content
+# returns None ('n/a'), a spelling the library refuses raises (reported as 'rejected').
+
+class NotApplicable(Exception):
+    pass
+
+def logical(s):
+    x = mk(s)
+    return np.ascontiguousarray(np.array(x.data, dtype=float)), np.ascontiguousarray(np.array(np.ma.getmaskarray(x), dtype=bool))
+
+def _rot(arr):
+    d = arr.ndim
+    perm = list(range(1, d)) + [0]
+    inv = list(np.argsort(perm))
+    return np.ascontiguousarray(arr.transpose(perm)).transpose(inv)
+
+def _strided(arr, fill):
+    big = np.empty([2 * n - 1 for n in arr.shape] if arr.ndim else [], dtype=arr.dtype)
+    if arr.dtype == bool:
+        big[...] = (np.indices(big.shape).sum(axis=0) % 3 == 0) if arr.ndim else False
+    else:
+        big[...] = fill
+    ev = (slice(None, None, 2),) * arr.ndim
+    big[ev] = arr
+    return big, ev
+
+def lay_array(arr, lay):
+    """ndarray with the logical content of the C-contiguous `arr` in memory layout `lay`"""
+    d = arr.ndim
+    if lay == 'C':
+        return arr.copy()
+    if lay == 'F':
+        return np.asfortranarray(arr)
+    if lay == 'rot':
+        if d < 3: raise NotApplicable()
+        return _rot(arr)
+    if lay == 'swap':
+        if d < 2: raise NotApplicable()
+        return np.ascontiguousarray(arr.swapaxes(0, d - 1)).swapaxes(0, d - 1)
+    if lay == 'strided':
+        big, ev = _strided(arr, 777.25 if arr.dtype != bool else False)
+        return big[ev]
+    if lay == 'neg':
+        return np.ascontiguousarray(np.flip(arr))[(slice(None, None, -1),) * d]
+    if lay == 'neg_last':
+        return np.ascontiguousarray(arr[..., ::-1])[..., ::-1]
+    if lay == 'negF':
+        if d < 2: raise NotApplicable()
+        return np.asfortranarray(np.flip(arr))[(slice(None, None, -1),) * d]
+    raise ValueError(lay)
+
+def mk_sp(s, sp):
+    if sp in (None, 'C'):
+        return mk(s)
+    D, M = logical(s)
+    d = D.ndim
+    kw = dict(mask_corners=False, data_folded=s['folded'], check_folding=False, pop_ids=s.get('pop_ids'), extrap_x=s.get('extrap_x'))
+    def S(data, mask, **k):
+        kk = dict(kw); kk.update(k)
+        return dadi.Spectrum(data, mask=mask, **kk)
+    F = np.asfortranarray
+    if sp == 'F':
+        if d < 2: raise NotApplicable()
+        return S(F(D), F(M))
+    if sp == 'Fdata':
+        if d < 2: raise NotApplicable()
+        return S(F(D), M)
+    if sp == 'Fmask':
+        if d < 2: raise NotApplicable()
+        return S(D, F(M))
+    if sp == 'rot':
+        return S(lay_array(D, 'rot'), lay_array(M, 'rot'))
+    if sp == 'nocopyF':
+        if d < 2: raise NotApplicable()
+        return S(F(D).copy(order='F'), F(M).copy(order='F'), copy=False)
+    if sp in ('transpose', 'dotT'):
+        if d < 2: raise NotApplicable()
+        pre = S(np.ascontiguousarray(D.T), np.ascontiguousarray(M.T))
+        return pre.transpose() if sp == 'transpose' else pre.T
+    if sp == 'swapaxes':
+        if d < 2: raise NotApplicable()
+        pre = S(np.ascontiguousarray(D.swapaxes(0, d - 1)), np.ascontiguousarray(M.swapaxes(0, d - 1)))
+        return pre.swapaxes(0, d - 1)
+    if sp in ('reorder_rev', 'reorder_swap12'):
+        if d < 2 or (sp == 'reorder_swap12' and d < 3): raise NotApplicable()
+        newaxes = list(range(d - 1, -1, -1)) if sp == 'reorder_rev' else [1, 0] + list(range(2, d))
+        inv = [int(t) for t in np.argsort(newaxes)]
+        ids = s.get('pop_ids')
+        pre = S(np.ascontiguousarray(D.transpose(inv)), np.ascontiguousarray(M.transpose(inv)),
+                pop_ids=None if ids is None else [ids[j] for j in inv])
+        return pre.reorder_pops([a + 1 for a in newaxes])
+    if sp == 'strided':
+        bd, ev = _strided(D, 777.25); bm, _ = _strided(M, False)
+        return S(bd, bm)[ev]
+    if sp == 'neg':
+        return S(np.ascontiguousarray(np.flip(D)), np.ascontiguousarray(np.flip(M)))[(slice(None, None, -1),) * d]
+    if sp == 'neg_last':
+        return S(np.ascontiguousarray(D[..., ::-1]), np.ascontiguousarray(M[..., ::-1]))[(Ellipsis, slice(None, None, -1))]
+    if sp == 'negF':
+        if d < 2: raise NotApplicable()
+        return S(F(np.flip(D)), F(np.flip(M)))[(slice(None, None, -1),) * d]
+    if sp == 'list':
+        return S(D.tolist(), M.tolist())
+    if sp in ('int', 'intF', 'int32'):
+        if not np.all(D == np.round(D)) or (sp == 'intF' and d < 2): raise NotApplicable()
+        I = D.astype(np.int32 if sp == 'int32' else np.int64)
+        return S(F(I) if sp == 'intF' else I, F(M) if sp == 'intF' else M)
+    if sp in ('f32', 'f32F'):
+        if not np.all(D.astype(np.float32).astype(float) == D) or (sp == 'f32F' and d < 2): raise NotApplicable()
+        I = D.astype(np.float32)
+        return S(F(I) if sp == 'f32F' else I, F(M) if sp == 'f32F' else M)
+    if sp in ('mask_int', 'mask_intF'):
+        if sp == 'mask_intF' and d < 2: raise NotApplicable()
+        I = M.astype(np.int8)
+        return S(F(D) if sp == 'mask_intF' else D, F(I) if sp == 'mask_intF' else I)
+    if sp in ('ma_in', 'ma_inF'):
+        if sp == 'ma_inF' and d < 2: raise NotApplicable()
+        ma = np.ma.masked_array(F(D), mask=F(M)) if sp == 'ma_inF' else np.ma.masked_array(D, mask=M)
+        return dadi.Spectrum(ma, **kw)
+    if sp in ('nomask', 'nomaskF'):
+        if M.any() or (sp == 'nomaskF' and d < 2): raise NotApplicable()
+        return dadi.Spectrum(F(D) if sp == 'nomaskF' else D, **kw)
+    if sp == 'spec_in_F':
+        if d < 2: raise NotApplicable()
+        return dadi.Spectrum(S(F(D), F(M)), mask_corners=False, extrap_x=s.get('extrap_x'))
+    raise ValueError(sp)
+
+def p_sp(p, sp):
+    """the misidentification probability p in another numeric spelling"""
+    if sp in (None, 'float'): return float(p)
+    if sp == 'np.float64': return np.float64(p)
+    if sp == 'np.float32':
+        if float(np.float32(p)) != p: raise NotApplicable()
+        return np.float32(p)
+    if sp == 'np.float16':
+        if float(np.float16(p)) != p: raise NotApplicable()
+        return np.float16(p)
+    if sp == '0d': return np.array(float(p))
+    if sp == '1elem': return np.array([float(p)])
+    if sp == 'ma0d': return np.ma.masked_array(float(p))
+    if p not in (0.0, 1.0): raise NotApplicable()
+    if sp == 'int': return int(p)
+    if sp == 'bool': return bool(p)
+    if sp == 'np.int64': return np.int64(p)
+    if sp == 'np.int8': return np.int8(p)
+    if sp == 'np.bool_': return np.bool_(p)
+    if sp == '0d_int': return np.array(int(p))
+    raise ValueError(sp)
+
+def params_sp(p, sp):
+    base = [1.0, 2.0, float(p)]
+    if sp in (None, 'ndarray'): return np.array(base)
+    if sp == 'list': return list(base)
+    if sp == 'tuple': return tuple(base)
+    if sp == 'strided': return np.array([1.0, 9.0, 2.0, 9.0, float(p), 9.0])[::2]
+    if sp == 'neg': return np.array(base[::-1])[::-1]
+    if sp == 'f32':
+        if float(np.float32(p)) != p: raise NotApplicable()
+        return np.array(base, dtype=np.float32)
+    if sp == 'object': return np.array(base, dtype=object)
+    if sp == 'list_np': return [np.float64(1.0), np.float64(2.0), np.float64(p)]
+    if p not in (0.0, 1.0): raise NotApplicable()
+    if sp == 'int_list': return [1, 2, int(p)]
+    if sp == 'int_array': return np.array([1, 2, int(p)])
+    raise ValueError(sp)
+
+def strides_of(a):
+    out = {'strides': list(a.strides) if hasattr(a, 'strides') else None}
+    if isinstance(a, np.ma.MaskedArray):
+        m = np.ma.getmask(a)
+        out['mask_strides'] = list(m.strides) if m is not np.ma.nomask else None
+    return out
+
+def operand_sp(o, sp):
+    """operand of a binary / in-place operator in another spelling"""
+    if sp in (None, 'C'):
+        return operand(o)
+    t = o['t']
+    if t == 'scalar':
+        v = o['v']
+        if sp == 'np.float64': return np.float64(v)
+        if sp == '0d': return np.array(float(v))
+        if sp == '1elem': return np.array([float(v)])
+        if sp == 'np.float32':
+            if float(np.float32(v)) != v: raise NotApplicable()
+            return np.float32(v)
+        if v != int(v): raise NotApplicable()
+        if sp == 'int': return int(v)
+        if sp == 'np.int64': return np.int64(v)
+        if sp == '0d_int': return np.array(int(v))
+        if sp == 'bool':
+            if v not in (0.0, 1.0): raise NotApplicable()
+            return bool(v)
+        raise ValueError(sp)
+    if t == 'spec':
+        return mk_sp(o, sp)
+    A = np.array(o['data'], dtype=float).reshape(o['shape'])
+    M = np.array(o['mask'], dtype=bool).reshape(o['shape']) if t == 'masked' else None
+    if sp in ('list', 'tuple'):
+        if t != 'array': raise NotApplicable()
+        def tup(x):
+            return tuple(tup(y) for y in x) if isinstance(x, list) else x
+        return A.tolist() if sp == 'list' else tup(A.tolist())
+    if sp in ('int', 'intF', 'f32'):
+        if sp == 'f32':
+            if not np.all(A.astype(np.float32).astype(float) == A): raise NotApplicable()
+            A2 = A.astype(np.float32)
+        else:
+            if not np.all(A == np.round(A)): raise NotApplicable()
+            A2 = A.astype(np.int64)
+            if sp == 'intF':
+                if A.ndim < 2: raise NotApplicable()
+                A2 = np.asfortranarray(A2)
+        return A2 if M is None else np.ma.masked_array(A2, mask=M)
+    A2 = lay_array(A, sp)
+    return A2 if M is None else np.ma.masked_array(A2, mask=lay_array(M, sp))
+
 def fl(x):
     x = float(x)
     return x if math.isfinite(x) else None
@@ -93,9 +313,15 @@ def sel_of(sel):
 def run_case(c):
     k = c['kind']
     rec = {'id': c['id']}
+    sp = c.get('sp')            # spelling of the Spectrum the entry point is applied to
+    lay = sp is not None        # a case of the layouts stream: also record the object afterwards and call twice
+    def after(x, key='in_after', st0=None):
+        if lay:
+            rec[key] = dump(x)
+            rec[key + '_strides_same'] = (st0 is None) or (strides_of(x) == st0)
     if k == 'fold':
-        x = mk(c['a'])
-        rec['in'] = dump(x)
+        x = mk_sp(c['a'], sp)
+        rec['in'] = dump(x); st0 = strides_of(x)
         try:
             f = x.fold()
             rec['f'] = dump(f)
@@ -110,21 +336,37 @@ def run_case(c):
         rec['fr'] = dump(xr.fold())
         rec['sum_in'] = fl(x.sum()) if x.count() else 0.0
         rec['sum_f'] = fl(f.sum()) if f.count() else 0.0
+        if lay:
+            # the mirror through the library's own helper, in the layout under test
+            rec['rev'] = dump(dadi.Numerics.reverse_array(x))
+            rec['f_again'] = dump(x.fold())         # the same object a second time
+            rec['u_again'] = dump(f.unfold())
+            after(x, st0=st0)
     elif k == 'unfold':
-        x = mk(c['a'])
-        rec['in'] = dump(x)
+        x = mk_sp(c['a'], sp)
+        rec['in'] = dump(x); st0 = strides_of(x)
         try:
             u = x.unfold()
             rec['u'] = dump(u)
         except ValueError as e:
             rec['u'] = {'raised': 'ValueError', 'msg': str(e)[:100]}
+        if lay:
+            try:
+                rec['u_again'] = dump(x.unfold())
+            except ValueError as e:
+                rec['u_again'] = {'raised': 'ValueError', 'msg': str(e)[:100]}
+            after(x, st0=st0)
     elif k == 'misid':
-        x = mk(c['a'])
-        rec['in'] = dump(x)
+        x = mk_sp(c['a'], sp)
+        rec['in'] = dump(x); st0 = strides_of(x)
         p = c['p']
         via = c.get('via', 'apply')
         if via == 'apply':
-            r = dadi.Numerics.apply_anc_state_misid(x, p)
+            pv = p_sp(p, c.get('psp'))
+            r = dadi.Numerics.apply_anc_state_misid(x, pv)
+            if lay:
+                rec['r_again'] = dump(dadi.Numerics.apply_anc_state_misid(x, pv))
+                rec['p_after'] = repr(pv) == repr(p_sp(p, c.get('psp')))
         elif via == 'np':
             r = dadi.Numerics.apply_anc_state_misid(x, np.float64(p))
         else:
@@ -132,14 +374,21 @@ def run_case(c):
                 return x
             g = dadi.Numerics.make_anc_state_misid_func(model)
             rec['name'] = g.__name__
-            r = g(np.array([1.0, 2.0, p]), None, pts=None)
+            pr = params_sp(p, c.get('parsp'))
+            r = g(pr, None, pts=None)
+            if lay:
+                rec['r_again'] = dump(g(pr, None, pts=None))
+                rec['p_after'] = repr(pr) == repr(params_sp(p, c.get('parsp')))
         rec['r'] = dump(r)
+        after(x, st0=st0)
     elif k in ('bin', 'iop'):
-        a = mk(c['a'])
+        a = mk_sp(c['a'], sp)
         rec['in'] = dump(a)
-        b = operand(c['b'])
+        b = operand_sp(c['b'], c.get('bsp'))
         if c['b']['t'] == 'spec':
             rec['b_in'] = dump(b)
+        if lay and isinstance(b, np.ndarray):
+            rec['b_before'] = dump(b); stb = strides_of(b)
         name = c['op']
         try:
             if c['call'] == 'method':
@@ -153,14 +402,17 @@ def run_case(c):
             rec['a_after'] = dump(a)
         except (ValueError, AttributeError, TypeError) as e:
             rec['r'] = {'raised': type(e).__name__, 'msg': str(e)[:100]}
+        if lay and isinstance(b, np.ndarray):
+            after(b, 'b_after', stb)
     elif k == 'slice':
-        a = mk(c['a'])
-        rec['in'] = dump(a)
+        a = mk_sp(c['a'], sp)
+        rec['in'] = dump(a); st0 = strides_of(a)
         r = a[sel_of(c['sel'])]
         rec['r'] = dump(r)
+        after(a, st0=st0)
     elif k == 'unary':
-        a = mk(c['a'])
-        rec['in'] = dump(a)
+        a = mk_sp(c['a'], sp)
+        rec['in'] = dump(a); st0 = strides_of(a)
         op = c['op']
         if op == 'neg': r = -a
         elif op == 'pos': r = +a
@@ -170,10 +422,17 @@ def run_case(c):
         elif op == 'reverse': r = dadi.Numerics.reverse_array(a)
         elif op == 'transpose': r = a.transpose()
         elif op == 'exp': r = np.exp(a)
+        elif op == 'reverse_ndarray':
+            # the helper on a plain ndarray / plain masked array in the layout under test
+            D, M = logical(c['a'])
+            r = dadi.Numerics.reverse_array(lay_array(D, c['lay']))
+            rec['r2'] = dump(dadi.Numerics.reverse_array(np.ma.masked_array(lay_array(D, c['lay']), mask=lay_array(M, c['lay']))))
         else: raise ValueError(op)
         rec['r'] = dump(r)
+        after(a, st0=st0)
     elif k == 'll':
-        model = mk(c['model']); data = mk(c['data'])
+        model = mk_sp(c['model'], c.get('msp')); data = mk_sp(c['data'], c.get('dsp'))
+        lay = c.get('msp') is not None or c.get('dsp') is not None
         rec['model_in'] = dump(model); rec['data_in'] = dump(data)
         fn = dadi.Inference.ll_multinom if c['multinom'] else dadi.Inference.ll
         try:
@@ -187,6 +446,12 @@ def run_case(c):
             except ValueError as e:
                 rec['ll_prefolded'] = None
         rec['model_after'] = dump(model)
+        if lay:
+            rec['data_after'] = dump(data)
+            try:
+                rec['ll_again'] = fl(fn(model, data))
+            except ValueError as e:
+                rec['ll_again'] = None
     else:
         raise ValueError(k)
     return rec
@@ -197,6 +462,8 @@ def main():
     for c in cases:
         try:
             out.append(run_case(c))
+        except NotApplicable:
+            out.append({'id': c['id'], 'na': True})
         except Exception as e:   # anything unexpected is reported per case, never swallowed
             out.append({'id': c['id'], 'crash': type(e).__name__ + ': ' + str(e)[:300]})
     print(json.dumps(out))
